@@ -13,7 +13,7 @@
 //  * keys / values of a procedure are compared as written when rendered without blanks; with blanks around them
 //    the parser's trimming is what makes them equal.
 //  * distributions: Simple is compared within 1e-5 (6-decimal rendering), every other family within 1e-9.
-// Enum laws: the quick / thorough fields are shard counts; >= 16 shards selects the thorough bound (length 8).
+// Enum laws: the quick / thorough fields are shard counts; >= 16 shards selects the thorough bound (G1: length 7, W1: length 8).
 #include "common/pbt.hpp"
 #include "common/bppcommon.hpp"
 
@@ -205,9 +205,11 @@ const int G_THOROUGH_SHARDS = 16;
 
 }  // namespace
 
-// every string over {0,1,9,-,+,.,e,E,blank} up to length 6 (quick) / 8 (thorough)
+// every string over {0,1,9,-,+,.,e,E,blank} up to length 6 (quick) / 7 (thorough).  All 9^8 strings of length 8 cost about
+// 2 CPU-hours under the sanitizers (every refused string raises two exceptions that capture a stack trace); G2 covers
+// longer strings at random.
 LAW(G1_grammar_enum, ENUM, 12, G_THOROUGH_SHARDS, 0, "a string of the grammar with a decimal separator or an exponent") {
-  const int maxLen = c.s.enumerating() ? (c.shardN >= G_THOROUGH_SHARDS ? 8 : 6) : 8;
+  const int maxLen = c.s.enumerating() ? (c.shardN >= G_THOROUGH_SHARDS ? 7 : 6) : 8;
   int n = c.irange(0, maxLen); string s;
   c.desc << "len " << n << " ";
   for (int i = 0; i < n; ++i) {
